@@ -1245,6 +1245,8 @@ def run(ctx):
     from .c18 import r18b, r18d
     r18b(ctx)
     r18d(ctx)
+    from .round12 import r12t
+    r12t(ctx)
 
 
 from ..selftest import Seed, unparse_seed  # noqa: E402
